@@ -519,6 +519,9 @@ def generate():
     from .translate_c import generate_c
 
     status.update(generate_c(gen))
+    from .translate_xr import generate_xr
+
+    status.update(generate_xr(gen))
     return status
 
 
